@@ -48,14 +48,14 @@ def lock_stages(profile, quick_cases, thorough_cases, thorough_r10=None):
          {"variant": "lock_r10", "binary": "lock_harness", "profile": profile, "cases_per_worker": thorough_r10 or thorough_cases // 2,
           "max_seconds": 1500},
          {"variant": "lock_fuzz", "binary": "lock_fuzz", "replay_variant": "lock_r1", "replay_binary": "lock_harness", "profile": profile,
-          "engine": "libFuzzer (coverage-guided; bytes decoded into a lock-DSL case, oracle inside the target)", "cases_per_worker": 60000, "max_seconds": 900}]
+          "engine": "libFuzzer (coverage-guided; bytes decoded into a lock-DSL case, oracle inside the target)", "cases_per_worker": 60000, "max_seconds": 420}]
     t += [{"variant": "lock_r3nohint", "binary": "lock_harness", "profile": profile, "cases_per_worker": thorough_cases // 4, "max_seconds": 900,
            "engine": "same generators against the library built without CPP_UTILITY_HAS_SPINLOCK_HINT (bare spin loops) and CPP_UTILITY_SPINLOCK_RETRY_NUM=3"}]
     t += [{"variant": "lock_r1", "binary": "lock_harness", "profile": profile, "sweep": True, "extra": [], "cases_per_worker": 0, "max_seconds": 900,
            "engine": "bounded sweep: catalogue of two-thread one-transaction programs x ALL schedules with <= 2 step-level preemptions (complete for that sub-space)"},
-          {"variant": "lock_r1", "binary": "lock_harness", "profile": profile, "sweep": True, "extra": ["--three"], "cases_per_worker": 0, "max_seconds": 1500,
+          {"variant": "lock_r1", "binary": "lock_harness", "profile": profile, "sweep": True, "extra": ["--three"], "cases_per_worker": 0, "max_seconds": 420,
            "engine": "bounded sweep: three-thread programs over {S, SIX, X, SIX->X, X->SIX, X->SIX->X} x ALL schedules with <= 2 preemptions"},
-          {"variant": "lock_r1", "binary": "lock_harness", "profile": profile, "sweep": True, "extra": ["--four"], "cases_per_worker": 0, "max_seconds": 1200,
+          {"variant": "lock_r1", "binary": "lock_harness", "profile": profile, "sweep": True, "extra": ["--four"], "cases_per_worker": 0, "max_seconds": 420,
            "engine": "focus sweep: four threads, thread 0 runs X / SIX->X / X->SIX, the others one S / SIX / X transaction each; ALL schedules in which only "
                      "thread 0 is switched out, <= 2 times (others ready, or parked until named), and 3 times when the last two switches are <= 3 steps apart (parked)"}]
     return {"quick": q, "thorough": t}
@@ -87,7 +87,7 @@ def thread_stages(profile, caps_quick, quick_cases, caps_thorough, thorough_case
     q = [{"variant": f"thread_c{c}", "binary": "thread_harness", "profile": profile, "cases_per_worker": quick_cases, "max_seconds": 120} for c in caps_quick]
     q += [{"variant": "thread_c2", "binary": "thread_harness", "profile": profile, "sweep": True, "extra": [], "cases_per_worker": 0, "max_seconds": 240, "engine": sweep}]
     t = [{"variant": f"thread_c{c}", "binary": "thread_harness", "profile": profile, "cases_per_worker": thorough_cases, "max_seconds": 900} for c in caps_thorough]
-    t += [{"variant": f"thread_c{c}", "binary": "thread_harness", "profile": profile, "sweep": True, "extra": [], "cases_per_worker": 0, "max_seconds": 900, "engine": sweep}
+    t += [{"variant": f"thread_c{c}", "binary": "thread_harness", "profile": profile, "sweep": True, "extra": [], "cases_per_worker": 0, "max_seconds": 300, "engine": sweep}
           for c in (1, 2, 3)]
     # variants with scheduling points at the reference-count operations of shared_ptr / weak_ptr (hidden synchronisation);
     # C15 additionally runs epoch histories there (a coordinator that touches heartbeats), judged by its own oracle kinds
@@ -121,7 +121,7 @@ def zipf_stages(profile, quick_cases, thorough_cases):
     return {"quick": [{"variant": "zipf", "binary": "zipf_harness", "profile": profile, "cases_per_worker": quick_cases, "max_seconds": 300}],
             "thorough": [{"variant": "zipf", "binary": "zipf_harness", "profile": profile, "cases_per_worker": thorough_cases, "max_seconds": 2400, "extra": ["--big"]},
                          {"variant": "zipf", "binary": "zipf_fuzz", "replay_binary": "zipf_harness", "profile": profile, "engine": "libFuzzer (coverage-guided, structure-aware decode)",
-                          "cases_per_worker": 300000 if profile == "C06" else 60000, "max_seconds": 1200}]}
+                          "cases_per_worker": 300000 if profile == "C06" else 60000, "max_seconds": 600}]}
 
 
 def zipf_c19_stages(quick_cases, thorough_cases):
